@@ -53,26 +53,26 @@ CLAIMED = {
          "sigma on/off grid) and PRISM.cost on systems in which only some pairs have cores; c = -1-gamma bitwise, g = y/r after every cost(x), |g| <= |fun|/r on solved objects and core-follows-diameter on "
          "re-used Systems are evaluated on the implementation.",
          "4 C03", "Lean 4 proof (closure algebra + DST inverse through the cost model) + differential correspondence"),
- 'C04': ("Lean theorems: matrix_map_perm (the per-wavenumber map (Omega, C) -> (1 - Omega C)^-1 Omega C Omega of cost is equivariant under EVERY permutation of the type labels; Matrix.submatrix / inverse lemmas), "
-         "elementwise_perm, prism_solution_unique (an invertible PRISM equation has exactly the solution cost computes), cost_totalCorr_is_Hmap (the totalCorr a cost evaluation stores IS that map of the stored omega and directCorr), split_lifts (for ANY number of labelled species with densities summing to rho and ANY symmetric "
-         "Omega whose rows sum to rho_a omega - monatomic A/A' with any ratio, diblock halves with the 1/(N_A+N_B) cross convention - the lifted h_ab = h, c_ab = c solve the n-component PRISM equation), monatomic_rows "
-         "(the code's rho_site convention has those row sums), potential_homogeneous (all seven shipped potential kinds, degree 1 in the energies), closure_input_invariant (U_s/(s kT) = U/kT), pmf_scales. "
-         "PARTIAL: equivariance is proved stage by stage (matrix map here; the closure and transform stages act pair by pair by C01's CostTrace lemmas) rather than as one statement about cost. "
-         "Metamorphic relations are evaluated on the implementation at the level of a single cost evaluation for arbitrary x (exact to rounding: all permutations, renaming, splits into 2-3 species incl. "
-         "diblock halves next to a solvent, energy scale 1e-2..1e2 with kT via constructor or assignment) and on converged solves; the reformulated systems also go through the Lean model.",
-         "4 C04", "Lean 4 proof (matrix conjugation, block algebra, homogeneity) + metamorphic differential checks; partial (stage-wise equivariance)"),
+ 'C04': ("Lean theorems about the cost model itself (Model/Prism.lean), for every rank, grid and trial input: cost_perm_equivariant (for EVERY relabelling of the site types, symmetric x and omega: the directCorr, totalCorr "
+         "and residual y a cost evaluation leaves on the relabelled object are the relabelled arrays of the original - so roots correspond), cost_split_lifts (for ANY number of labelled species with densities summing to rho and ANY "
+         "symmetric Omega whose rows sum to rho_a omega - monatomic A/A' with any ratio, diblock halves with the 1/(N_A+N_B) cross convention - every labelled pair of the split system gets exactly the unsplit c, h and y for the lifted "
+         "input), cost_ignores_kT / cost_energy_scaling with potential_homogeneous (all seven shipped potential kinds) and closure_input_invariant (U_s/(s kT) = U/kT), pmf_scales; supporting: matrix_map_perm, Hmap_symm, "
+         "prism_solution_unique, cost_totalCorr_is_Hmap, split_lifts, monatomic_rows, closure_stage_local, transform_stage_local. The inverse used by the code is a parameter (hypothesis: it inverted 1 - Omega C). "
+         "Metamorphic relations are evaluated on the implementation at the level of a single cost evaluation for arbitrary x (exact to rounding: all permutations, renaming incl. integer labels, splits into 2-3 species incl. "
+         "tracer fractions and diblock halves next to a solvent, energy scale 1e-2..1e2 with kT via constructor or assignment) and on converged solves; the reformulated systems also go through the Lean model.",
+         "4 C04", "Lean 4 proof (equivariance / lifting of the whole cost evaluation: matrix conjugation, block algebra, DST inverse, homogeneity) + metamorphic differential checks"),
  'C05': ("Lean theorems about a statement-for-statement model of the seven calculate functions (Model/Calculate.lean), for every rank, every flag value and arrays stored in either space: "
          "pair_correlation_def (h+1), pmf_def (-kT ln g), structure_factor_def (rho_pair h + Omega, /rho_site when normalised), second_virial_def, chi_def with chi_weights (linear in C with weights "
          "1/R : R : -2, prefactor independent of C) and chi_equal_volumes ((rho/2)(Caa+Cbb-2Cab)), spinodal_def with spinodal_is_det (the eight-term expression = det(1 - Omega C) of the pair's symmetric "
          "2x2 block, every pair a<b of any rank; Matrix.det_fin_two), solvation_def (-kT CSC / -kT ln(1+CSC) with S as returned by structure_factor), extrapolate_is_quadratic (value at 0 of every quadratic "
-         "through the three points) and extrap0_grid (= 3y0 - 3y1 + y2 on the Domain grid), sf_of_selfconsistent (S = (1-Omega C)^-1 Omega), structure_factor_symmetric, (a,b) = (b,a) for the tables, "
+         "through the three points) and extrap0_grid (= 3y0 - 3y1 + y2 on the Domain grid), sf_of_selfconsistent and sf_after_cost ((1 - Omega C) S = Omega for the structure factor returned after ANY cost evaluation), structure_factor_symmetric, pair_correlation_symmetric, (a,b) = (b,a) for the tables, "
          "chi_refused_rank_one, ensureFourier/ensureReal_total (no call is refused because of the space). The model is compared call by call with the real functions on rank 1-4 objects; an independent "
          "NumPy transcription of the definitions is evaluated on the implementation.",
          "4 C05", "Lean 4 proof (entry-wise definitions, 2x2 determinant, Lagrange interpolation) + differential correspondence"),
  'C06': ("Lean theorems: the only way a calculate call or a user transform changes the object is by moving one stored array to the other space (Step; pair_correlation/pmf/second_virial/chi/spinodal/"
          "structure_factor_steps, flip_is_step); such a move preserves the canonical (Fourier) form of every stored array (ensureFourier_canon, ensureReal_canon, roundtrip_RF/FR from the DST inverse "
          "theorems), hence so does EVERY finite history (history_preserves_canon, calls_preserve_canon - induction over ReflTransGen Step); what the formulas read is determined by the canonical form "
-         "(ensureFourier_eq_canon, ensureReal_of_canon, reads_history_free), and the returned values are entry-wise functions of that (C05 *_def); after solve the arrays are those of the last evaluated point "
+         "(ensureFourier_eq_canon, ensureReal_of_canon, reads_history_free), hence the returned values are the same for any two objects with the same canonical arrays: pair_correlation/pmf/second_virial/chi/spinodal/structure_factor_history_free; after solve the arrays are those of the last evaluated point "
          "(C01.solve_leaves_returned_root); solvation_steps; cost_eq_of_static and resolve_returns_same_state (a later solve whose last evaluation is again at x* leaves EXACTLY the same object, whatever "
          "happened in between - 'a root finder started on its own root evaluates last at that root' is the oracle assumption, sampled). Random call histories (<= 12 / <= 40 calls, 2-3 components, solved and hand-populated objects, re-solves) are run on the real object and on the model, comparing every return value, "
          "stored array and flag after every call, and every return value with the same call on a pristine copy.",
@@ -87,7 +87,7 @@ CLAIMED = {
  'C08': ("Lean theorems, for every length N >= 1 and every reachable Domain: toFourier_riemann and toReal_riemann (the transforms ARE the half-cell-offset Riemann sums of F(k) = (4 pi/k) Int f r sin(kr) dr and "
          "f(r) = (1/(2 pi^2 r)) Int F k sin(kr) dk, last k-term half weight: pins the two prefactors individually and the conjugate spacing dk = pi/(dr N)), toFourier_error_bound (for r f(r) continuous, bounded "
          "by M0 and M1-Lipschitz: |to_fourier(f)(k_j) - (4 pi/k_j) Int_0^rmax f r sin(k_j r) dr| <= (4 pi/k_j) rmax (M1 + M0 k_j/2) dr; via interval integrals, riemann_cell_bound, sine_quadrature_first_order), "
-         "k_to_zero (Filter.Tendsto to the Riemann sum of the volume integral). PARTIAL: the analogous O(dr) bound for to_real and the closed-form transforms of the reference families are not proved (textbook "
+         "k_to_zero (Filter.Tendsto to the Riemann sum of the volume integral), toReal_phase_bound (the half-cell offset of the backward transform costs at most dr/2 times the discrete moment (dk/(2 pi^2 r)) Sum k^2 |F|). PARTIAL: the k-quadrature/truncation part of the backward error and the closed-form transforms of the reference families are not proved (textbook "
          "references, used numerically). The Riemann-sum identities are evaluated on the implementation independently of scipy's DST for random arrays/domains/setter histories; the analytic families are run "
          "on refinement families dr, dr/2, dr/4 (incl. non-5-smooth lengths) with a first-order criterion forward, backward and at k -> 0.",
          "4 C08", "Lean 4 proof (Riemann-sum identities, interval-integral error bound, limit) + differential/analytic validation; partial (backward bound)"),
@@ -113,7 +113,7 @@ CLAIMED = {
          "nothing is built), snapshot_wiring (rank, kT, domain, per pair closure class/flag, closure sigma = Diameter table, potential sigma = own or default, closure.potential = U(r)/kT on the r grid, "
          "omega = omega(k) rho_site on the k grid, symmetric, Fourier). Object level (Model/SysHeap.lean: potentials/closures are cells of an explicit store, PairTable assignment and deepcopy(sys) allocate, "
          "PRISM.__init__ writes only its copies): step_isolated, later_edits_do_not_reach_prism and reachable_inv (induction over ARBITRARY operation sequences: no cell owned by an existing PRISM object ever "
-         "changes, System references and PRISM-owned cells stay disjoint), create_does_not_write_system (the System's meaning absSys is unchanged by createPRISM), sweep_equals_fresh (the PRISM created after any "
+         "changes, System references and PRISM-owned cells stay disjoint), snapshot_wiring_values (with C15's invariants: closure sigma = (d_a+d_b)/2, omega scaled by rho_a / rho_a+rho_b), create_does_not_write_system (the System's meaning absSys is unchanged by createPRISM), sweep_equals_fresh (the PRISM created after any "
          "history is createPRISM of the System's current meaning), create_refused_iff, and the negation witness aliased_create_changes_system for the variant that iterates the caller's table. The store model "
          "runs in the driver and is compared after EVERY operation of random edit/create/solve histories with the hidden object state of the real System and of every PRISM object created so far.",
          "4 C16", "Lean 4 proof (decision logic + object-store invariant by induction over operation histories) + differential correspondence"),
